@@ -179,6 +179,32 @@ CHECKS = {
     note=("Trusted: z3, interpreter, the induction principle and the stated invariant; histories are exhaustive enumeration with native execution "
           "(gc.collect at drop events). Connection close is C11; a GC racing the weak cache on another thread is outside."),
     technique="inductive invariant step by symbolic execution of the Python AST + z3 (LIA); exhaustive bounded histories on real connections"),
+ "C07": dict(
+    category="other", design_ref="DESIGN.md section 4 (C07)",
+    text=("Per-message obligations under the default configuration, executed symbolically on the real _unbox / _dispatch_request / all 20 "
+          "handlers / _dispatch / vinegar.load: the boxing label and the handler number are unconstrained solver Ints, peer-chosen names unbounded "
+          "Strings, attribute existence an uninterpreted predicate; payloads and argument shapes (13 shapes mixing lent objects, names, values, "
+          "tuples, identifiers; valid/stale/foreign/forged identifiers) are exhaustive choices. Assertions: nothing but objects lent on this "
+          "connection or proxies bound to it can be obtained; every attribute touch/call on a lent object is permitted by the default policy oracle; "
+          "pickle, __import__, eval/exec (effect-logged sinks) are never reached; one response frame; other connections' tables untouched."),
+    note=("Trusted: z3, interpreter, identity codec/frame list (C04/C05), spy objects abstracting lent objects. The library's own fixed "
+          "introspection reads while boxing (____id_pack__, ____conn__, __name__, __class__, __module__) are not counted as peer-directed accesses. "
+          "Peer-chosen texts that get unpacked character-wise are enumerated up to 3 characters. What a lent callable does when legitimately "
+          "called and denial of service are outside."),
+    technique="symbolic execution of the Python AST with symbolic label/handler/name + z3 (strings, UF); effect-log oracles; replay on CPython"),
+ "C11": dict(
+    category="other", design_ref="DESIGN.md section 4 (C11)",
+    text=("Teardown paths of the real Connection executed symbolically/exhaustively: every way of ending (close(), being told to close, EOF while "
+          "serving) x before_closed hook outcome (absent/ok/raises/re-enters close) x outcome of sending the close request (ok/EOFError/other) "
+          "with close_catchall a solver Bool: closed, disconnect hook exactly once, tables released, channel closed, closing again a no-op, "
+          "exceptions escape only when permitted. Fault positions: for three workloads (sync request, async request collected later, nested "
+          "callback) against a frame-level peer, the f-th transport operation (every f) fails with EOFError; in virtual time nothing hangs, no "
+          "request returns a value the peer did not send, a failure met while serving closes the connection and runs the hook once, later requests "
+          "fail. Both sides closing in either order / abrupt loss are run on two real connections."),
+    note=("Trusted: interpreter, identity codec/frame list, virtual clock; mid-packet failures are reduced to failing transport operations by C05's "
+          "stream contract. The fault position is an exhaustive finite choice (<=12 quick/16 thorough operations), the solver decides only the "
+          "close_catchall/timeout arithmetic. `closed` observed by a third thread during close() is outside."),
+    technique="symbolic/exhaustive execution of the Python AST with injected transport faults + z3; replay on CPython"),
 }
 
 NOT_YET = {}
